@@ -68,7 +68,9 @@ func feLen(tier string) int {
 }
 
 // feSeparators join lexemes in the adjacency families and token gaps in the layout family.
-var feSeparators = []string{"", " ", "\t", "\n", "/**/", "//\n", "\r\n", "/** c **/", "/***/", "/* a * b */", "/* x */ /* y */", "// c // d\n"}
+var feSeparators = []string{"", " ", "\t", "\n", "/**/", "//\n", "\r\n", "/** c **/", "/***/", "/* a * b */", "/* x */ /* y */", "// c // d\n",
+	// comments with multi-byte characters (bytes and characters count differently)
+	"// größer → 十\n", "/* é€ */"}
 
 func sepName(s string) string {
 	switch s {
